@@ -21,7 +21,7 @@ states of sub and rest are disjoint and together all states; (c) with backend nu
 model; the generated C must compile) each part is generated with rhs, monitor_values, explicit_euler, generalized_rush_larsen and
 missing_values for the names the other part misses; fed with its own missing values - taken from the full model's states /
 parameters / monitor_values by name, and alternatively from the other part's generated missing_values function - rhs, monitor_values
-and both schemes (dt 0.05) must equal the full model's values by name (rtol 1e-9), and missing_values must return the full model's
+and both schemes (dt 0.05) must equal the full model's values by name (rtol 1e-9, atol 1e-12 x (1 + magnitude)), and missing_values must return the full model's
 value of every requested name.  Models whose full module cannot be generated are skipped.  Non-trivial: the part has >= 1 missing
 variable; distinct by sha1(text, component, back end, check, point)."""
 
@@ -198,7 +198,7 @@ def numerics(res, add, text, cname, bk, parts, built, pts, full):
                     if n != len(want_out):
                         add(f"{bk}:missing_values-wrong-length", f"missing_values of the {pname} part returns {n} entries for {len(want_out)} requested names", extra, len(want_out), n)
                     else:
-                        bad = {k: float(out[i]) for k, i in want_out.items() if not cm.close(out[i], value_of(k, pt, mon), 1e-9, 1e-12)}
+                        bad = {k: float(out[i]) for k, i in want_out.items() if not cm.vclose(out[i], value_of(k, pt, mon), 0.0)}
                         if bad:
                             add(f"{bk}:missing_values-differ", f"missing_values of the {pname} part of {cname!r} differ from the full model", extra, {k: value_of(k, pt, mon) for k in bad}, bad)
                         else:
@@ -231,7 +231,7 @@ def numerics(res, add, text, cname, bk, parts, built, pts, full):
                     continue
                 if fn == "monitor_values" and set(got) != set(parts[pname][1][3]):
                     add(f"{bk}:monitor-names-wrong", f"monitor table of the {pname} part differs from its assignments", extra, sorted(parts[pname][1][3]), sorted(got))
-                bad = {k: got[k] for k in want if not cm.close(got[k], want[k], 1e-9, 1e-12)}
+                bad = {k: got[k] for k in want if not cm.vclose(got[k], want[k], 0.0)}
                 if bad:
                     add(f"{bk}:{fn if dt is None else 'scheme'}-differs", f"{fn} of the {pname} part of {cname!r} differs from the full model", extra, {k: want[k] for k in bad}, bad)
     return
